@@ -4,7 +4,7 @@ the book and the property text), the fragment of declarable types, arity well-fo
 relate `bindIn` / `mix` to them.
 -/
 import XrayModel.Types
-set_option maxHeartbeats 400000
+set_option maxHeartbeats 800000
 namespace XrayModel
 
 theorem bindIn_callable_callable (ps ps' : List Ty) (r r' : Ty) (b : Bnd)
@@ -490,6 +490,426 @@ theorem commonType_unknown_right (a : Ty) : commonType a .unknown = some a := by
 
 theorem commonType_unknown_left (b : Ty) : commonType .unknown b = some b := by
   cases b <;> simp [commonType, Ty.beq]
+
+
+/-! ## XFunc-free types, `==`, commutativity of `common_type` -/
+
+mutual
+/-- no `XFunc` inside (function *names* have XFunc types; every other expression type is free of them) -/
+def funcFree : Ty → Bool
+  | .func _ _ _ _ => false
+  | .tuple ts => funcFreeList ts
+  | .native _ ts => funcFreeList ts
+  | .compound _ _ ts => funcFreeList ts
+  | .callable ps r => funcFreeList ps && funcFree r
+  | _ => true
+def funcFreeList : List Ty → Bool
+  | [] => true
+  | t :: ts => funcFree t && funcFreeList ts
+end
+
+/-! ### on XFunc-free types `==` is structural equality -/
+mutual
+theorem beq_eq : (a b : Ty) → funcFree a = true → funcFree b = true → (Ty.beq a b = true ↔ a = b)
+  | .bool, b, _, _ => by cases b <;> simp [Ty.beq]
+  | .int, b, _, _ => by cases b <;> simp [Ty.beq]
+  | .float, b, _, _ => by cases b <;> simp [Ty.beq]
+  | .str, b, _, _ => by cases b <;> simp [Ty.beq]
+  | .unknown, b, _, _ => by cases b <;> simp [Ty.beq]
+  | .generic x, b, _, _ => by cases b <;> simp [Ty.beq]
+  | .func _ _ _ _, b, h, _ => by simp [funcFree] at h
+  | .tuple as, b, ha, hb => by
+    cases b with
+    | tuple bs => simp only [funcFree] at ha hb; simp [Ty.beq, beqList_eq as bs ha hb]
+    | _ => simp [Ty.beq]
+  | .native n as, b, ha, hb => by
+    cases b with
+    | native m bs => simp only [funcFree] at ha hb; simp [Ty.beq, beqList_eq as bs ha hb]
+    | _ => simp [Ty.beq]
+  | .compound k n as, b, ha, hb => by
+    cases b with
+    | compound k' m bs => simp only [funcFree] at ha hb; simp [Ty.beq, beqList_eq as bs ha hb, and_assoc]
+    | _ => simp [Ty.beq]
+  | .callable ps r, b, ha, hb => by
+    cases b with
+    | callable ps' r' =>
+      simp only [funcFree, Bool.and_eq_true] at ha hb
+      simp [Ty.beq, beqList_eq ps ps' ha.1 hb.1, beq_eq r r' ha.2 hb.2]
+    | func _ _ _ _ => simp [funcFree] at hb
+    | _ => simp [Ty.beq]
+theorem beqList_eq : (as bs : List Ty) → funcFreeList as = true → funcFreeList bs = true →
+    (Ty.beqList as bs = true ↔ as = bs)
+  | [], [], _, _ => by simp [Ty.beqList]
+  | [], _ :: _, _, _ => by simp [Ty.beqList]
+  | _ :: _, [], _, _ => by simp [Ty.beqList]
+  | a :: as, b :: bs, ha, hb => by
+    simp only [funcFreeList, Bool.and_eq_true] at ha hb
+    simp [Ty.beqList, beq_eq a b ha.1 hb.1, beqList_eq as bs ha.2 hb.2]
+end
+
+/-! ### `common_type` is commutative on XFunc-free types -/
+mutual
+theorem commonType_comm' : (a b : Ty) → funcFree a = true → funcFree b = true → commonType a b = commonType b a
+  | a, b, ha, hb => by
+    by_cases hab : a = b
+    · subst hab; rfl
+    · have hba : ¬ b = a := fun e => hab e.symm
+      have e1 : Ty.beq a b = false := by
+        rw [← Bool.not_eq_true, beq_eq a b ha hb]; exact hab
+      have e2 : Ty.beq b a = false := by
+        rw [← Bool.not_eq_true, beq_eq b a hb ha]; exact hba
+      unfold commonType
+      simp only [e1, e2, Bool.false_eq_true, if_false]
+      cases a with
+      | compound k0 n as =>
+        cases b with
+        | compound k1 m bs =>
+          simp only [funcFree] at ha hb
+          by_cases hn : n = m
+          · by_cases hk : k0 = k1
+            · subst hn; subst hk
+              simp [commonZip_comm as bs ha hb]
+            · have hk' : ¬ k1 = k0 := fun e => hk e.symm
+              simp [hk, hk']
+          · have hn' : ¬ m = n := fun e => hn e.symm
+            simp [hn, hn']
+        | _ => simp
+      | tuple as =>
+        cases b with
+        | tuple bs =>
+          simp only [funcFree] at ha hb
+          by_cases hl : as.length = bs.length
+          · simp [hl, commonZip_comm as bs ha hb]
+          · have hl' : ¬ bs.length = as.length := fun e => hl e.symm
+            simp [hl, hl']
+        | _ => simp
+      | native n as =>
+        cases b with
+        | native m bs =>
+          simp only [funcFree] at ha hb
+          by_cases hc : n = m
+          · subst hc; simp [commonZip_comm as bs ha hb]
+          · have hc' : ¬ m = n := fun e => hc e.symm
+            simp [hc, hc']
+        | _ => simp
+      | func _ _ _ _ => simp [funcFree] at ha
+      | _ => cases b <;> simp
+theorem commonZip_comm : (as bs : List Ty) → funcFreeList as = true → funcFreeList bs = true →
+    commonZip as bs = commonZip bs as
+  | [], [], _, _ => rfl
+  | [], _ :: _, _, _ => by simp [commonZip]
+  | _ :: _, [], _, _ => by simp [commonZip]
+  | a :: as, b :: bs, ha, hb => by
+    simp only [funcFreeList, Bool.and_eq_true] at ha hb
+    simp only [commonZip]
+    rw [commonType_comm' a b ha.1 hb.1, commonZip_comm as bs ha.2 hb.2]
+end
+
+
+/-! ## transitivity of `Sub` -/
+
+theorem sub_unknown_iff (s : Ty) : Sub s .unknown ↔ s = .unknown := by
+  constructor
+  · intro h; cases h; rfl
+  · rintro rfl; exact .bot _
+theorem sub_func_iff (s : Ty) (g : Option (List String)) (ps : List Ty) (n : Nat) (r : Ty) :
+    Sub s (.func g ps n r) ↔ s = .unknown := by
+  constructor
+  · intro h; cases h; rfl
+  · rintro rfl; exact .bot _
+
+/-! ### `Sub` is transitive -/
+mutual
+theorem sub_trans : (u s t : Ty) → Sub s t → Sub t u → Sub s u
+  | .bool, s, t, h1, h2 => by
+    rcases (sub_bool_iff t).mp h2 with rfl | rfl
+    · rw [(sub_unknown_iff s).mp h1]; exact .bot _
+    · exact h1
+  | .int, s, t, h1, h2 => by
+    rcases (sub_int_iff t).mp h2 with rfl | rfl
+    · rw [(sub_unknown_iff s).mp h1]; exact .bot _
+    · exact h1
+  | .float, s, t, h1, h2 => by
+    rcases (sub_float_iff t).mp h2 with rfl | rfl
+    · rw [(sub_unknown_iff s).mp h1]; exact .bot _
+    · exact h1
+  | .str, s, t, h1, h2 => by
+    rcases (sub_str_iff t).mp h2 with rfl | rfl
+    · rw [(sub_unknown_iff s).mp h1]; exact .bot _
+    · exact h1
+  | .unknown, s, t, h1, h2 => by
+    rw [(sub_unknown_iff t).mp h2] at h1; exact h1
+  | .generic a, s, t, h1, h2 => by
+    rcases (sub_generic_iff t a).mp h2 with rfl | rfl
+    · rw [(sub_unknown_iff s).mp h1]; exact .bot _
+    · exact h1
+  | .func g ps n r, s, t, h1, h2 => by
+    rw [(sub_func_iff t g ps n r).mp h2] at h1
+    rw [(sub_unknown_iff s).mp h1]; exact .bot _
+  | .tuple us, s, t, h1, h2 => by
+    rcases (sub_tuple_iff t us).mp h2 with rfl | ⟨ts, rfl, h2'⟩
+    · rw [(sub_unknown_iff s).mp h1]; exact .bot _
+    · rcases (sub_tuple_iff s ts).mp h1 with rfl | ⟨ss, rfl, h1'⟩
+      · exact .bot _
+      · exact .tuple (subList_trans us ss ts h1' h2')
+  | .native n us, s, t, h1, h2 => by
+    rcases (sub_native_iff t n us).mp h2 with rfl | ⟨ts, rfl, h2'⟩
+    · rw [(sub_unknown_iff s).mp h1]; exact .bot _
+    · rcases (sub_native_iff s n ts).mp h1 with rfl | ⟨ss, rfl, h1'⟩
+      · exact .bot _
+      · exact .native (subList_trans us ss ts h1' h2')
+  | .compound k n us, s, t, h1, h2 => by
+    rcases (sub_compound_iff t k n us).mp h2 with rfl | ⟨ts, rfl, h2'⟩
+    · rw [(sub_unknown_iff s).mp h1]; exact .bot _
+    · rcases (sub_compound_iff s k n ts).mp h1 with rfl | ⟨ss, rfl, h1'⟩
+      · exact .bot _
+      · exact .compound (subList_trans us ss ts h1' h2')
+  | .callable ps r, s, t, h1, h2 => by
+    rcases (sub_callable_iff t ps r).mp h2 with rfl | ⟨ps', r', rfl, hp, hr⟩ | ⟨g, ps', n', r', rfl, _, _, _, _⟩
+    · rw [(sub_unknown_iff s).mp h1]; exact .bot _
+    · rcases (sub_callable_iff s ps' r').mp h1 with rfl | ⟨ps'', r'', rfl, hp', hr'⟩ | ⟨g, ps'', n'', r'', rfl, hn, hl, hp', hr'⟩
+      · exact .bot _
+      · exact .callable (subList_trans ps ps'' ps' hp' hp) (sub_trans r r'' r' hr' hr)
+      · have hlen := hp.length_eq
+        refine .func (by omega) (by omega) ?_ (sub_trans r r'' r' hr' hr)
+        rw [← hlen]
+        exact subList_trans ps _ ps' hp' hp
+    · rw [(sub_func_iff s g ps' n' r').mp h1]; exact .bot _
+theorem subList_trans : (us ss ts : List Ty) → SubList ss ts → SubList ts us → SubList ss us
+  | [], ss, ts, h1, h2 => by
+    rw [(subList_nil_iff ts).mp h2] at h1; exact h1
+  | u :: us, ss, ts, h1, h2 => by
+    cases h2 with
+    | cons h2a h2b =>
+      cases h1 with
+      | cons h1a h1b => exact .cons (sub_trans u _ _ h1a h2a) (subList_trans us _ _ h1b h2b)
+end
+
+/-! ### reflexivity on XFunc-free types (`funcFree` from a1) -/
+
+
+/-! ## `common_type` is the least upper bound for `Sub` -/
+
+mutual
+theorem sub_refl' : (t : Ty) → funcFree t = true → Sub t t
+  | .bool, _ => .bool
+  | .int, _ => .int
+  | .float, _ => .float
+  | .str, _ => .str
+  | .unknown, _ => .bot _
+  | .generic a, _ => .generic a
+  | .tuple ts, h => .tuple (subList_refl' ts (by simpa [funcFree] using h))
+  | .native _ ts, h => .native (subList_refl' ts (by simpa [funcFree] using h))
+  | .compound _ _ ts, h => .compound (subList_refl' ts (by simpa [funcFree] using h))
+  | .callable ps r, h => by
+    simp only [funcFree, Bool.and_eq_true] at h
+    exact .callable (subList_refl' ps h.1) (sub_refl' r h.2)
+  | .func _ _ _ _, h => by simp [funcFree] at h
+theorem subList_refl' : (ts : List Ty) → funcFreeList ts = true → SubList ts ts
+  | [], _ => .nil
+  | t :: ts, h => by
+    simp only [funcFreeList, Bool.and_eq_true] at h
+    exact .cons (sub_refl' t h.1) (subList_refl' ts h.2)
+end
+
+/-- XFunc-free and arity-well-formed -/
+def good (ar : String → Nat) (t : Ty) : Prop := funcFree t = true ∧ wfTy ar t = true
+def goodList (ar : String → Nat) (ts : List Ty) : Prop := funcFreeList ts = true ∧ wfList ar ts = true
+
+theorem goodList_cons (ar : String → Nat) (t : Ty) (ts : List Ty) : goodList ar (t :: ts) ↔ good ar t ∧ goodList ar ts := by
+  simp only [goodList, good, funcFreeList, wfList, Bool.and_eq_true]; constructor
+  · rintro ⟨⟨a, b⟩, c, d⟩; exact ⟨⟨a, c⟩, b, d⟩
+  · rintro ⟨⟨a, c⟩, b, d⟩; exact ⟨⟨a, b⟩, c, d⟩
+
+/-! ### `common_type` is an upper bound … -/
+mutual
+theorem commonType_ub' (ar : String → Nat) : (a b c : Ty) → good ar a → good ar b → commonType a b = some c →
+    good ar c ∧ Sub a c ∧ Sub b c
+  | a, b, c, ha, hb, h => by
+    by_cases hab : a = b
+    · subst hab
+      have : Ty.beq a a = true := (beq_eq a a ha.1 ha.1).mpr rfl
+      unfold commonType at h; simp only [this, if_true] at h
+      cases h; exact ⟨ha, sub_refl' a ha.1, sub_refl' a ha.1⟩
+    · have e1 : Ty.beq a b = false := by
+        rw [← Bool.not_eq_true, beq_eq a b ha.1 hb.1]; exact hab
+      unfold commonType at h
+      simp only [e1, Bool.false_eq_true, if_false] at h
+      cases a with
+      | compound k0 n as =>
+        cases b with
+        | compound k1 m bs =>
+          simp only at h
+          split at h
+          · cases h
+          · rename_i hc
+            simp only [Bool.or_eq_true, bne_iff_ne, ne_eq, not_or, Decidable.not_not] at hc
+            obtain ⟨rfl, rfl⟩ := hc
+            split at h
+            · cases h
+            · rename_i cs hz; cases h
+              have ha' : goodList ar as ∧ as.length = ar n := by
+                simp only [good, funcFree, wfTy, Bool.and_eq_true, beq_iff_eq] at ha; exact ⟨⟨ha.1, ha.2.2⟩, ha.2.1⟩
+              have hb' : goodList ar bs ∧ bs.length = ar n := by
+                simp only [good, funcFree, wfTy, Bool.and_eq_true, beq_iff_eq] at hb; exact ⟨⟨hb.1, hb.2.2⟩, hb.2.1⟩
+              obtain ⟨hg, hl, s1, s2⟩ := commonZip_ub ar as bs cs ha'.1 hb'.1 (by omega) hz
+              refine ⟨?_, .compound s1, .compound s2⟩
+              simp only [good, funcFree, wfTy, Bool.and_eq_true, beq_iff_eq]
+              exact ⟨hg.1, by omega, hg.2⟩
+        | unknown => simp at h; cases h; exact ⟨ha, sub_refl' _ ha.1, .bot _⟩
+        | _ => simp at h
+      | tuple as =>
+        cases b with
+        | tuple bs =>
+          simp only at h
+          split at h
+          · cases h
+          · rename_i hl
+            simp only [bne_iff_ne, ne_eq, Decidable.not_not] at hl
+            split at h
+            · cases h
+            · rename_i cs hz; cases h
+              have ha' : goodList ar as := by simpa [good, goodList, funcFree, wfTy] using ha
+              have hb' : goodList ar bs := by simpa [good, goodList, funcFree, wfTy] using hb
+              obtain ⟨hg, _, s1, s2⟩ := commonZip_ub ar as bs cs ha' hb' hl hz
+              refine ⟨?_, .tuple s1, .tuple s2⟩
+              simpa [good, goodList, funcFree, wfTy] using hg
+        | unknown => simp at h; cases h; exact ⟨ha, sub_refl' _ ha.1, .bot _⟩
+        | _ => simp at h
+      | native n as =>
+        cases b with
+        | native m bs =>
+          simp only at h
+          split at h
+          · cases h
+          · rename_i hc
+            simp only [bne_iff_ne, ne_eq, Decidable.not_not] at hc
+            subst hc
+            split at h
+            · cases h
+            · rename_i cs hz; cases h
+              have ha' : goodList ar as ∧ as.length = ar n := by
+                simp only [good, funcFree, wfTy, Bool.and_eq_true, beq_iff_eq] at ha; exact ⟨⟨ha.1, ha.2.2⟩, ha.2.1⟩
+              have hb' : goodList ar bs ∧ bs.length = ar n := by
+                simp only [good, funcFree, wfTy, Bool.and_eq_true, beq_iff_eq] at hb; exact ⟨⟨hb.1, hb.2.2⟩, hb.2.1⟩
+              obtain ⟨hg, hl, s1, s2⟩ := commonZip_ub ar as bs cs ha'.1 hb'.1 (by omega) hz
+              refine ⟨?_, .native s1, .native s2⟩
+              simp only [good, funcFree, wfTy, Bool.and_eq_true, beq_iff_eq]
+              exact ⟨hg.1, by omega, hg.2⟩
+        | unknown => simp at h; cases h; exact ⟨ha, sub_refl' _ ha.1, .bot _⟩
+        | _ => simp at h
+      | unknown =>
+        have : some b = some c := by cases b <;> simp_all
+        cases this; exact ⟨hb, .bot _, sub_refl' _ hb.1⟩
+      | func _ _ _ _ => simp [good, funcFree] at ha
+      | bool => cases b <;> simp at h; cases h; exact ⟨ha, .bool, .bot _⟩
+      | int => cases b <;> simp at h; cases h; exact ⟨ha, .int, .bot _⟩
+      | float => cases b <;> simp at h; cases h; exact ⟨ha, .float, .bot _⟩
+      | str => cases b <;> simp at h; cases h; exact ⟨ha, .str, .bot _⟩
+      | generic x => cases b <;> simp at h; cases h; exact ⟨ha, .generic x, .bot _⟩
+      | callable ps r => cases b <;> simp at h; cases h; exact ⟨ha, sub_refl' _ ha.1, .bot _⟩
+theorem commonZip_ub (ar : String → Nat) : (as bs cs : List Ty) → goodList ar as → goodList ar bs → as.length = bs.length →
+    commonZip as bs = some cs → goodList ar cs ∧ cs.length = as.length ∧ SubList as cs ∧ SubList bs cs
+  | [], [], cs, _, _, _, h => by simp [commonZip] at h; subst h; exact ⟨⟨rfl, rfl⟩, rfl, .nil, .nil⟩
+  | [], _ :: _, _, _, _, hl, _ => by simp at hl
+  | _ :: _, [], _, _, _, hl, _ => by simp at hl
+  | a :: as, b :: bs, cs, ha, hb, hl, h => by
+    rw [goodList_cons] at ha hb
+    simp only [List.length_cons, Nat.add_right_cancel_iff] at hl
+    simp only [commonZip] at h
+    split at h
+    · cases h
+    · rename_i c hc
+      split at h
+      · cases h
+      · rename_i cs' hz; cases h
+        obtain ⟨g1, s1, s2⟩ := commonType_ub' ar a b c ha.1 hb.1 hc
+        obtain ⟨g2, l2, t1, t2⟩ := commonZip_ub ar as bs cs' ha.2 hb.2 hl hz
+        exact ⟨(goodList_cons ar c cs').mpr ⟨g1, g2⟩, by simp [l2], .cons s1 t1, .cons s2 t2⟩
+end
+
+/-! ### … and the least one -/
+mutual
+theorem commonType_least' : (a b c d : Ty) → commonType a b = some c → Sub a d → Sub b d → Sub c d
+  | a, b, c, d, h, h1, h2 => by
+    unfold commonType at h
+    split at h
+    · cases h; exact h1
+    · cases a with
+      | compound k0 n as =>
+        cases b with
+        | compound k1 m bs =>
+          simp only at h
+          split at h
+          · cases h
+          · split at h
+            · cases h
+            · rename_i cs hz; cases h
+              cases h1 with
+              | compound hh1 =>
+                cases h2 with
+                | compound hh2 => exact .compound (commonZip_least as bs cs _ hz hh1 hh2)
+        | unknown => simp at h; cases h; exact h1
+        | _ => simp at h
+      | tuple as =>
+        cases b with
+        | tuple bs =>
+          simp only at h
+          split at h
+          · cases h
+          · split at h
+            · cases h
+            · rename_i cs hz; cases h
+              cases h1 with
+              | tuple hh1 =>
+                cases h2 with
+                | tuple hh2 => exact .tuple (commonZip_least as bs cs _ hz hh1 hh2)
+        | unknown => simp at h; cases h; exact h1
+        | _ => simp at h
+      | native n as =>
+        cases b with
+        | native m bs =>
+          simp only at h
+          split at h
+          · cases h
+          · split at h
+            · cases h
+            · rename_i cs hz; cases h
+              cases h1 with
+              | native hh1 =>
+                cases h2 with
+                | native hh2 => exact .native (commonZip_least as bs cs _ hz hh1 hh2)
+        | unknown => simp at h; cases h; exact h1
+        | _ => simp at h
+      | unknown =>
+        have : some b = some c := by cases b <;> simp_all
+        cases this; exact h2
+      | bool => cases b <;> simp at h; cases h; exact h1
+      | int => cases b <;> simp at h; cases h; exact h1
+      | float => cases b <;> simp at h; cases h; exact h1
+      | str => cases b <;> simp at h; cases h; exact h1
+      | generic x => cases b <;> simp at h; cases h; exact h1
+      | callable ps r => cases b <;> simp at h; cases h; exact h1
+      | func _ _ _ _ => cases b <;> simp at h; cases h; exact h1
+theorem commonZip_least : (as bs cs ds : List Ty) → commonZip as bs = some cs → SubList as ds → SubList bs ds → SubList cs ds
+  | [], _, cs, ds, h, h1, _ => by
+    simp [commonZip] at h; subst h; exact h1
+  | a :: as, [], cs, ds, h, h1, h2 => by
+    cases h2; cases h1
+  | a :: as, b :: bs, cs, ds, h, h1, h2 => by
+    simp only [commonZip] at h
+    split at h
+    · cases h
+    · rename_i c hc
+      split at h
+      · cases h
+      · rename_i cs' hz; cases h
+        cases h1 with
+        | cons h1a h1b =>
+          cases h2 with
+          | cons h2a h2b =>
+            exact .cons (commonType_least' a b c _ hc h1a h2a) (commonZip_least as bs cs' _ hz h1b h2b)
+end
 
 
 end XrayModel
